@@ -56,6 +56,13 @@ where
         }
         _ => {
             let idxs: Vec<usize> = if n * m <= 36 { (0..n * m).collect() } else { let mut v: Vec<usize> = [0, n - 1, n, n * m / 2, n * m - 1].into_iter().filter(|&k| k < n * m).collect(); v.sort(); v.dedup(); v };
+            {
+                // also for an empty view (no index to write through): same address, same extent
+                let f: &mut GA<E, Prod<N, M>> = (&mut nested).flatten();
+                if (f.as_ptr() as usize, f.len(), core::mem::size_of_val(f)) != (base, n * m, core::mem::size_of::<GA<GA<E, N>, M>>()) {
+                    return Err(format!("&mut flatten view is (addr {:#x}, len {}), original is (addr {base:#x}, {} elements)", f.as_ptr() as usize, f.len(), n * m));
+                }
+            }
             for k in idxs {
                 let fresh = E::make();
                 let fid = fresh.ident();
@@ -120,6 +127,13 @@ where
         }
         _ => {
             let idxs: Vec<usize> = if n * m <= 36 { (0..n * m).collect() } else { let mut v: Vec<usize> = [0, n - 1, n, n * m / 2, n * m - 1].into_iter().filter(|&k| k < n * m).collect(); v.sort(); v.dedup(); v };
+            {
+                // also for an empty view (no index to write through): same address, same extent
+                let u: &mut GA<GA<E, N>, M> = (&mut flat).unflatten();
+                if (u.as_ptr() as usize, u.len(), core::mem::size_of_val(u)) != (base, m, core::mem::size_of::<GA<E, Prod<N, M>>>()) {
+                    return Err(format!("&mut unflatten view is (addr {:#x}, len {}), expected (addr {base:#x}, len {m})", u.as_ptr() as usize, u.len()));
+                }
+            }
             for k in idxs {
                 let fresh = E::make();
                 let fid = fresh.ident();
